@@ -561,37 +561,62 @@ func ruleSpawnMod(w *World, r *RuleResult) {
 		r.undecided("offset", w.Pos(fn.Pos()), "spawn routine has no Address parameter")
 		return
 	}
-	paths, err := w.Paths(fn)
-	if err != nil {
-		r.undecided(fn.Name(), w.Pos(fn.Pos()), err.Error())
-		return
-	}
-	rc := newRedCtx(w, fn)
 	d := newDedup(r)
-	usesOff := func(t *T) bool { return t.contains(func(x *T) bool { return x.Op == "p" && x.S == off }) }
 	sinks := 0
-	for _, p := range paths {
-		for i := range p.Events {
-			e := &p.Events[i]
-			var t *T
-			what := ""
-			if (e.Kind == "store" || e.Kind == "load") && e.LV != nil {
-				if idx, _, ok := c.cell(e.LV); ok {
-					t, what = idx, "core-index"
+	// the offset is followed into every module function it is handed to unreduced
+	type job struct {
+		fn  *ssa.Function
+		off string
+	}
+	seen := map[string]bool{}
+	work := []job{{fn, off}}
+	for len(work) > 0 {
+		j := work[0]
+		work = work[1:]
+		if seen[fnKey(j.fn)+"/"+j.off] {
+			continue
+		}
+		seen[fnKey(j.fn)+"/"+j.off] = true
+		paths, err := w.Paths(j.fn)
+		if err != nil {
+			r.undecided(j.fn.Name(), w.Pos(j.fn.Pos()), err.Error())
+			return
+		}
+		rc := newRedCtx(w, j.fn)
+		usesOff := func(t *T) bool { return t.contains(func(x *T) bool { return x.Op == "p" && x.S == j.off }) }
+		for _, p := range paths {
+			for i := range p.Events {
+				e := &p.Events[i]
+				var t *T
+				what := ""
+				if (e.Kind == "store" || e.Kind == "load") && e.LV != nil {
+					if idx, _, ok := c.cell(e.LV); ok {
+						t, what = idx, "core-index"
+					}
 				}
+				if c.isPush(e) {
+					t, what = e.Args[1], "initial-task"
+				}
+				if rep, ok := c.reportOf(e); ok && rep.Addr != nil {
+					t, what = rep.Addr, "report-address"
+				}
+				if t == nil && e.Kind == "call" && e.Callee != nil && len(e.Callee.Blocks) > 0 && e.Callee.Pkg == j.fn.Pkg && len(e.Args) == len(e.Callee.Params) {
+					for k, a := range e.Args {
+						if !usesOff(a) {
+							continue
+						}
+						if ok, _ := rc.reduced(a); !ok {
+							work = append(work, job{e.Callee, e.Callee.Params[k].Name()})
+						}
+					}
+				}
+				if t == nil || !usesOff(t) {
+					continue
+				}
+				sinks++
+				good, why := rc.reduced(t)
+				d.add(good, j.fn.Name()+"/"+what, c.posOf(e), why, "load offset reaches the "+what+" unreduced: "+why)
 			}
-			if c.isPush(e) {
-				t, what = e.Args[1], "initial-task"
-			}
-			if rep, ok := c.reportOf(e); ok && rep.Addr != nil {
-				t, what = rep.Addr, "report-address"
-			}
-			if t == nil || !usesOff(t) {
-				continue
-			}
-			sinks++
-			good, why := rc.reduced(t)
-			d.add(good, fn.Name()+"/"+what, c.posOf(e), why, "load offset reaches the "+what+" unreduced: "+why)
 		}
 	}
 	d.flush()
